@@ -137,9 +137,20 @@ def system_sweep(ctx, paths_file, kind, to, max_states):
         for op in st["path"]:
             rows.append(retarget(op, 1, 0, ch))
         contributing = gen.PN_CNS if kind != "cc14" else [0, 1, 31, 32, 33, 63]
+        rows.append({"op": "copy", "id": 1, "to2": 2})        # the same state without the system messages
         for s in range(240, 256):
             rows.append({"op": "feed", "id": 1, "m": [s, ctx.rng.choice(contributing), gen.rval(ctx.rng)],
                          "f": gen.impl(ctx.rng)})
+        # "never affect any channel": what is reported afterwards is what the untouched copy reports
+        post = [[176 + ch, 33, 5], [176 + ch, 1, 7], [176 + ch, 33, 9]] if kind == "cc14" else \
+            [[176 + ch, 6, 42], [176 + ch, 38, 43], [176 + ch, 96, 1], [176 + ch, 6, 44]]
+        for m in post:
+            rows.append({"op": "feed", "id": 1, "m": m})
+            rows.append({"op": "feed", "id": 2, "m": m, "tw": 1, "twp": "C15"})
+        if kind == "poll":
+            rows.append({"op": "tick", "id": -1, "dt": to + 1})
+            rows.append({"op": "poll", "id": 1, "ch": ch})
+            rows.append({"op": "poll", "id": 2, "ch": ch, "tw": 1, "twp": "C15"})
     return rows
 
 
